@@ -386,7 +386,7 @@ pub fn run(tier: &str) -> i32 {
         let text = match generate(&src, &cfg) {
             Outcome::Ok(t) => t,
             other => {
-                rep.filtered(&format!("generator not Ok: {}", other.class()));
+                rep.generation_failed(format!("{mkey}|module"), &other.class(), &src, cfg);
                 continue;
             }
         };
